@@ -333,6 +333,27 @@ def check(tier, seed):
                                   % (k + 1, [OPTION_SETS[i] for i in seq], opts),
                                   {"schema": name, "sequence": [OPTION_SETS[i] for i in seq], "call": k + 1}, True)
                     break
+    # --- D. the text is a function of what the schema contains NOW: printed, edited in place (a description, a deprecation, a default), printed again -----------
+    def edit_in_place(schema_):
+        q = schema_.query_type
+        q.description = "edited after the first print"
+        f0 = q.fields[0]
+        f0.description = "edited field"
+        f0.deprecation_reason = "no longer"
+        f0.deprecated = True
+        return schema_
+    for name in hist_schemas:
+        make = dict(schema_sources())[name]
+        for opts in OPTION_SETS[:3]:
+            n += 1
+            printed_first = make()
+            before = printed_first.to_string(**opts)
+            after = edit_in_place(printed_first).to_string(**opts)
+            fresh = edit_in_place(make()).to_string(**opts)
+            if after != fresh:
+                run.violation("to_string:history-independent", "a schema printed, edited in place and printed again gives another text than the same schema edited "
+                              "before its first print (options %r)%s" % (opts, ": the second print still shows the old content" if after == before else ""),
+                              {"schema": name, "sequence": ["to_string", "edit descriptions / deprecation in place", "to_string"], "options": opts}, True)
     if nontrivial == 0:
         raise MachineryDefect("nothing round-tripped")
     run.cov["evaluations"] = n
